@@ -1224,8 +1224,42 @@ def _is_tag_comparator_call(ctx, e):
     return bool(b) and b["arg_count"] == 2 and all(b["locals"][i]["s"].endswith("[u8]") for i in (1, 2))
 
 
+def _inline_strong(r):
+    """the strong comparison written out at the gate instead of calling the comparator: byte equality of the If-Range value and
+    the entity's tag, plus "the value opens with a double quote" (equal byte strings of which one is not weak are both strong).
+    -> 1 when the path has established both, 0 when it has refuted either, None when it has decided neither"""
+    def side(x):
+        f = fmt_term(x)
+        return "ifr" if "IF_RANGE" in f else ("etag" if "etag(" in f else None)
+    eqv = quote = None
+    for t, v in r.o.cons.known.items():
+        if not (isinstance(t, tuple) and t and v in (0, 1)):
+            continue
+        if t[0] == "eq" and len(t) == 3:
+            a, b = t[1], t[2]
+            if {side(a), side(b)} == {"ifr", "etag"} and all(isinstance(x, tuple) and x[0] == "call" and x[1].endswith("::as_bytes") for x in (a, b)):
+                eqv = v
+                continue
+            for x, y in ((a, b), (b, a)):
+                # first() == Some(&b'"')   /   v[0] == b'"' is not accepted: it panics on an empty value
+                if isinstance(x, tuple) and x[0] == "first" and side(x[1]) and is_agg(y) and y[3] == "Some" and agg_get(y, "0") == const(34):
+                    quote = v
+        elif t[0] == "call" and t[1].endswith("::starts_with") and side(t[2][0]):
+            lit = t[2][1]
+            if isinstance(lit, tuple) and lit[0] in ("refconst", "&"):
+                lit = lit[1]
+            if isinstance(lit, tuple) and lit[0] in ("str", "bytes") and lit[1] == '"':
+                quote = v
+    if eqv == 0 or quote == 0:
+        return 0
+    if eqv == 1 and quote == 1:
+        return 1
+    return None
+
+
 def c05_gate(ctx, M):
     nkeep = ndrop = 0
+    inline_sites = 0
     classes = {}
     for r in ok_rows(M):
         pe = parser_event(ctx, r)
@@ -1256,6 +1290,11 @@ def c05_gate(ctx, M):
             res = e.get("result")
             if res is not None and r.o.cons.known.get(res) is not None:
                 cmp_true = (e, r.o.cons.known.get(res))
+        if not cmp_ev and ifr == "Some":
+            iv = _inline_strong(r)
+            if iv is not None:
+                cmp_true = (None, iv)
+                inline_sites += iv
         cls = "If-Range=%s etag=%s etag-form=%s comparator=%s -> %s" % (ifr, etag, etag_form if ifr == "Some" else "-",
                                                                         cmp_true[1] if cmp_true else "-", "Range kept" if is_range else "Range dropped")
         classes[cls] = classes.get(cls, 0) + 1
@@ -1274,7 +1313,7 @@ def c05_gate(ctx, M):
                               "the Range header is honoured under If-Range without a strong ETag match (If-Range %s, entity etag %s, comparator result %s)" %
                               (ifr, etag, cmp_true[1] if cmp_true else "not evaluated"), where=where(pe))
         # the comparator must be applied to (If-Range value, entity etag)
-        if cmp_true is not None:
+        if cmp_true is not None and cmp_true[0] is not None:
             e = cmp_true[0]
             a, b = e["args"]
             # (what the references denote, where PX knows it: e.g. bytes taken from the entity's tag once and kept in a local)
@@ -1319,7 +1358,10 @@ def c05_gate(ctx, M):
             ctx.ok("C05.R2", "gate comparator %s is the strong comparison" % nme)
         else:
             ctx.violation("C05.R2", "C05.R2|comparator|%s" % kind, "the If-Range gate compares with `%s`, which is %s (%s); a strong comparison is required" % (nme, kind, why))
-    ctx.floor("C05.R2", len(names), 1, what="comparator calls at the gate")
+    if inline_sites and not names:
+        ctx.ok("C05.R2", "the gate compares inline: byte equality of (If-Range value, entity ETag) under \"the value opens with a double quote\" - the strong comparison",
+               detail={"rows": inline_sites})
+    ctx.floor("C05.R2", len(names) + (1 if inline_sites else 0), 1, what="comparator calls at the gate")
 
 
 # ------------------------------------------------------------------ C06.R1 multipart exits
